@@ -26,6 +26,19 @@ def payload_bytes(spec, history):
     return build.expand(spec)
 
 
+def spelled_reply(cfg, sp):
+    """The handshake reply with the extension parameters AND the header line spelled as the spelling says."""
+    sp = sp or {}
+    reply = httpref.canonical_spec(extensions=[extension_header(cfg, sp)])
+    name, value = reply["headers"][-1][0], reply["headers"][-1][1]
+    name = [name, name.lower(), name.upper(), name.swapcase()][sp.get("name", 0) % 4]
+    opts = {"pre": sp.get("pre", " "), "post": sp.get("post", "")}
+    if sp.get("fold") is not None and " " in value:
+        opts["folds"] = [sp["fold"]]
+    reply["headers"][-1] = [name, value, opts]
+    return reply
+
+
 class C06(Prop):
     id = "C06"
     level = "exploration"
@@ -53,6 +66,10 @@ class C06(Prop):
             "semi_l": st.sampled_from(["", " ", "\t"]), "semi_r": st.sampled_from(["", " ", "  "]),
             # RFC 6455 takes its ABNF from RFC 2616: linear white space may surround "=" and ";"
             "eq_l": st.sampled_from(["", "", " ", "\t"]), "eq_r": st.sampled_from(["", "", " "]),
+            # the header line itself: casing of its name, white space around the value, and the value folded over two
+            # lines (obs-fold) at one of its spaces
+            "name": st.sampled_from([0, 0, 1, 2, 3]), "fold": st.one_of(st.none(), st.none(), st.integers(0, 5)),
+            "pre": st.sampled_from([" ", " ", "", "\t", "  "]), "post": st.sampled_from(["", "", " ", "\t"]),
         })
         sized = st.one_of(
             st.tuples(st.sampled_from(["rand", "rep"]), gen.weighted([
@@ -206,7 +223,9 @@ class C06(Prop):
             cfg0 = case["cfg"]
             presets = [{"order": 0}, {"order": 1, "quote": True}, {"order": 2, "eq_l": " ", "eq_r": " "},
                        {"order": 7, "semi_l": " ", "semi_r": "", "eq_l": "\t"}, {"order": 3, "omit_default": True},
-                       {"order": 9, "quote": True, "eq_r": " ", "semi_r": "  "}]
+                       {"order": 9, "quote": True, "eq_r": " ", "semi_r": "  "},
+                       {"order": 0, "fold": 0}, {"order": 4, "fold": 1, "name": 2}, {"order": 5, "fold": 0, "name": 3, "quote": True},
+                       {"order": 8, "fold": 2, "name": 1, "pre": "", "post": " "}, {"order": 6, "fold": 3, "pre": "\t"}]
             spelling = presets[(cfg0["sb"] + cfg0["cb"] * 3 + case["battery"]) % len(presets)]
             case = {"cfg": case["cfg"], "spelling": spelling, "steps": self.BATTERY[case["battery"]],
                     "negotiated": True, "damage": None, "seg": "whole"}
@@ -309,7 +328,7 @@ class C06(Prop):
                 expected.append({"name": "binary", "data": want})
         # ---- scenario
         if negotiated:
-            reply = httpref.canonical_spec(extensions=[extension_header(cfg, case["spelling"])])
+            reply = spelled_reply(cfg, case["spelling"])
         else:
             reply = None
         reactions = []
